@@ -13,4 +13,5 @@ def check(run, replay=None):
     return msgprops.check(run, "C01", "Props/C01", THEOREMS, {"c01": True, "decode": True}, replay,
                           translated=[("Props/C01T", ["c01_translated_one_published_name_per_variant"]),
                                       ("Props/C01V", ["c01_translated_variants_of_one_kind", "c01_translated_selected_methods",
-                                                     "c01_translated_from_items_to_variants", "c01_translated_selected_from_items"])])
+                                                     "c01_translated_from_items_to_variants", "c01_translated_selected_from_items",
+                                                     "c01_translated_one_variant"])])
